@@ -204,6 +204,10 @@ def run(M, rep, tier, only=None):
                     badp, why = p, "a value must be stored exactly once (stores=%d, deletes=%d)" % (len(wa), len(ua))
                     break
                 e = wa[0]
+                if e.op.split(".")[-1] not in ("__setitem__", "create"):
+                    badp, why = p, ("the value is stored with attrs.%s, which keeps the attribute's previous HDF5 type: a later value of "
+                                    "another type (int -> float) is silently converted to the old one" % e.op.split(".")[-1])
+                    break
                 val = e.args[1].t if len(e.args) > 1 else None
                 if e.key is None or e.key.t != ("param", "name"):
                     badp, why = p, "the value is stored under %s instead of the parameter `name`" % (show(e.key.t) if e.key else None)
@@ -269,6 +273,31 @@ def run(M, rep, tier, only=None):
                       "looking it up in its parent again: when the group was unlinked and re-created through another handle, "
                       "the write goes to the orphaned group and is lost on reopening" % name,
                       site=bad[1].site if bad else None, detail=describe_path(bad[0]) if bad else None)
+
+    # ---- R9: a container group is emptied item by item, never unlinked as a whole (other handles hold the group object)
+    R9 = rep.rule("C02.R9", "container groups are never unlinked as a whole", floor=1,
+                  technique="keys of unlink events on an entity's own group on all abstract paths")
+    cnames = ctx.fx.container_names()
+    n9 = 0
+    for cn, name, tb, f in surface(M, ENTITY_CLASSES, ("methods", "setters", "deleters")):
+        if not ctx.cg.writes(f):
+            continue
+        direct = ctx.cg.ops.get(f.qual, ())
+        if not any(o[0] in ("layer", "raw") and o[1].split(".")[-1] in ("__delitem__", "delete", "pop") for o in direct):
+            continue
+        n9 += 1
+        bad = None
+        for p in ctx.paths(f, cn):
+            for e in p.events:
+                if e.kind in ("layer", "raw") and e.op.split(".")[-1] in ("__delitem__", "delete", "pop") and e.func == f.qual and \
+                        e.key is not None and is_const(e.key) and e.key.t[1] in cnames and e.key.t[1] not in ("metadata", "data") and \
+                        e.recv is not None and e.recv.t in (("attr", ("self",), "_h5group"), ("attr", ("attr", ("self",), "_h5group"), "group")):
+                    bad = (p, e)
+        rep.check(R9, api_key(cn, name, tb), bad is None, "%s unlinks the whole container group %r: another handle on the same entity "
+                  "keeps the orphaned group object and its next change is lost on reopening" % (api_key(cn, name, tb), bad[1].key.t[1] if bad else ""),
+                  site=bad[1].site if bad else None, detail=describe_path(bad[0]) if bad else None)
+    if not n9:
+        rep.bad(R9, "entity unlinks", "required mechanism not found")
 
     # ---- R5
     for nm, need in (("close", "file.close"), ("__exit__", "file.close")):
